@@ -1,5 +1,6 @@
 import DoltVerif.Model.Wire
 import DoltVerif.Model.Ignore
+import DoltVerif.Model.IgnoreRename
 /-!
 Model driver for C46 (dolt_ignore).  Stateless: every request carries its whole input.
 
@@ -16,6 +17,11 @@ patterns: `T<hex>` / `F<hex>`          roots: `x<hex>=<content id>` entries
   commitall <pats> <head> <staged> <working>             -> ok <head'=staged'> | err ...
   commitmod <staged> <working>                           -> ok <staged'>
   clean <respect> <pats> <nonlocal> <names> <staged> <working> -> ok <working'> | err ...
+roots with identities (renames): entries `x<hex>=<tid>:<content id>`
+  addr <force> <pats> <names> <stagedT> <workingT>        -> ok <stagedT'> | err ...
+  stageallr <force> <pats> <stagedT> <workingT>           -> ok <stagedT'> | err ...
+  commitallr <pats> <headT> <stagedT> <workingT>          -> ok <stagedT'> | err ...
+  cleanr <respect> <pats> <nonlocal> <names> <stagedT> <workingT> -> ok <workingT'> | err ...
 -/
 open DoltVerif DoltVerif.Ignore DoltVerif.Wire
 
@@ -51,6 +57,19 @@ def encRoot (r : Root) : String :=
   let es := (r.map (fun e => (encStr e.name, e.content))).mergeSort (fun a b => a.1 ≤ b.1)
   if es.isEmpty then "-" else ",".intercalate (es.map (fun e => s!"{e.1}={e.2}"))
 
+def decTEntry (w : String) : Option TEntry :=
+  match w.splitOn "=" with
+  | [n, tc] => match tc.splitOn ":" with
+    | [t, c] => match decStr n, t.toNat?, c.toNat? with
+      | some n, some t, some c => some ⟨n, t, c⟩
+      | _, _, _ => none
+    | _ => none
+  | _ => none
+
+def encTRoot (r : TRoot) : String :=
+  let es := (r.map (fun e => (encStr e.name, e.tid, e.content))).mergeSort (fun a b => a.1 ≤ b.1)
+  if es.isEmpty then "-" else ",".intercalate (es.map (fun e => s!"{e.1}={e.2.1}:{e.2.2}"))
+
 def encErr : Err → String
   | .conflict t => s!"err conflict {encStr t}"
   | .notFound t => s!"err notfound {encStr t}"
@@ -61,6 +80,10 @@ def encDec : Decision → String
 
 def encRes : Except Err Root → String
   | .ok r => "ok " ++ encRoot r
+  | .error e => encErr e
+
+def encTRes : Except Err TRoot → String
+  | .ok r => "ok " ++ encTRoot r
   | .error e => encErr e
 
 def bool? : String → Option Bool
@@ -102,6 +125,25 @@ def handle : List String → Option String
     let ns ← decList decStr ns
     let st ← decList decEntry st; let w ← decList decEntry w
     pure (encRes (clean r ps nl ns st w))
+  | ["addr", f, ps, ns, st, w] => do
+    let f ← bool? f; let ps ← decList decPat ps; let ns ← decList decStr ns
+    let st ← decList decTEntry st; let w ← decList decTEntry w
+    pure (encTRes (stageTablesR f ps ns st w))
+  | ["stageallr", f, ps, st, w] => do
+    let f ← bool? f; let ps ← decList decPat ps
+    let st ← decList decTEntry st; let w ← decList decTEntry w
+    pure (encTRes (stageAllR f ps st w))
+  | ["commitallr", ps, h, st, w] => do
+    let ps ← decList decPat ps; let h ← decList decTEntry h
+    let st ← decList decTEntry st; let w ← decList decTEntry w
+    pure (encTRes (do
+      let s' ← stageAllR false ps st w
+      if (TRoot.plain s').sameAs (TRoot.plain h) then .error .nothingToCommit else pure s'))
+  | ["cleanr", r, ps, nl, ns, st, w] => do
+    let r ← bool? r; let ps ← decList decPat ps; let nl ← decList decStr nl
+    let ns ← decList decStr ns
+    let st ← decList decTEntry st; let w ← decList decTEntry w
+    pure (encTRes (cleanR r ps nl ns st w))
   | _ => none
 
 def step (_ : Unit) (ws : List String) : Unit × String :=
